@@ -231,7 +231,7 @@ class Job:
                     self.known.append({"finding": finding, "what": k.get("what", what), "obligation": name})
                     return
         digest = hashlib.sha256(json.dumps(frac_json(model), sort_keys=True).encode()).hexdigest()[:10]
-        d = os.path.join(VERIF, "replays", self.pid)
+        d = os.path.join(os.environ.get("BBVERIF_OUT", VERIF), "replays", self.pid)
         os.makedirs(d, exist_ok=True)
         safe = "".join(ch if ch.isalnum() or ch in "-_." else "_" for ch in name)
         path = os.path.join(d, f"{safe}-{digest}.json")
@@ -362,8 +362,11 @@ def finish(pid, tier, seed, results, wall, mod):
     extra = getattr(mod, "EVIDENCE_EXTRA", None)
     if extra:
         ev["coverage"].update(extra)
-    os.makedirs(os.path.join(VERIF, "evidence"), exist_ok=True)
-    with open(os.path.join(VERIF, "evidence", f"{pid}.json"), "w") as f:
+    # BBVERIF_OUT redirects evidence/replays (used when a scratch tree is analysed through BBVERIF_REPO, so that
+    # the committed evidence always describes /repo itself)
+    evdir = os.path.join(os.environ.get("BBVERIF_OUT", VERIF), "evidence")
+    os.makedirs(evdir, exist_ok=True)
+    with open(os.path.join(evdir, f"{pid}.json"), "w") as f:
         json.dump(frac_json(ev), f, indent=1)
     print(f"[{pid}] tier={tier} jobs={len(results)} paths={paths} obligations={len(obligations)} "
           f"unsat={discharged} witnesses={witnesses} validated={validated} known={len(seen)} "
